@@ -474,6 +474,7 @@ func Run(r *ev.Run) {
 		r.RequireAtLeast("roundtrip:"+ep.name, 20)
 	}
 	r.RequireAtLeast("passthrough_of_valid_envelope", 20)
+	compositeValues(r, gen.New(r.Seed, "c01-composite"), envs, clients, eps)
 	for _, e := range envs {
 		if e.Name == "v2mem" {
 			longHistory(r, gen.New(r.Seed, "c01-long-history"), e, eps)
